@@ -44,12 +44,12 @@ let sys_args before secs nanos =
   let n = u32 nanos in
   (b, sys_time_repr b s n)
 
-type hop = HS | HP | HC of calendar | HN of z | HY | HR | HL | HE | HA | HUnsup
+type hop = HS | HP | HC of calendar | HN of z | HY | HR | HL | HE | HA | HT | HO | HH | HM | HUnsup
 
 let parse_hop (tok : ostring) : hop =
   match tok with
   | "s" -> HS | "p" -> HP | "y" -> HY | "r" -> HR | "L" -> HL | "E" -> HE | "A" -> HA
-  | "t" | "o" | "h" | "m" -> HUnsup
+  | "t" -> HT | "o" -> HO | "h" -> HH | "m" -> HM
   | _ ->
     let n = String.length tok in
     if n >= 2 && String.sub tok 0 2 = "c:" then HC (cal_of (String.sub tok 2 (n - 2)))
@@ -70,6 +70,10 @@ let apply_hop (d : date) (h : hop) : date option =
   | HL -> fst (run (later_next (run (date_later d))))
   | HE -> fst (run (earlier_next (run (date_earlier d))))
   | HA -> fst (run (and_later_next (run (date_and_later d))))
+  | HT -> (match run (parse_date d.date_f_calendar (run (show_date d))) with Ok x -> Some x | Err _ -> None)
+  | HO -> (match run (parse_date d.date_f_calendar (run (show_date_alt d))) with Ok x -> Some x | Err _ -> None)
+  | HH -> run (via_foreign chrono_ymin chrono_ymax false d)
+  | HM -> run (via_foreign time_ymin time_ymax true d)
   | HUnsup -> raise Unsupported
 
 let eval (toks : ostring list) : ostring =
@@ -138,4 +142,5 @@ let eval (toks : ostring list) : ostring =
       let r = apply_hop !d h in
       (match r with Some nd -> d := nd | None -> ());
       dash_date r) ops)
+  | ["foreign_enums"] -> "ok"
   | _ -> raise Unsupported
